@@ -62,6 +62,11 @@ def replay(prop, path):
               f"{d.get('seed', 0)} (the witness is regenerated deterministically)")
         return mod.run(d.get("tier", "quick"), int(d.get("seed", 0) or 0))
     if still:
+        import findings
+        hit = next((e for e in findings.load_known() if findings._matches(e, prop, sig)), None)
+        if hit is not None:
+            print(f"KNOWN-FINDING: property={prop} {hit['what']} [{hit['id']}]")
+            return 0
         print(f"VIOLATION property={prop} replay={path}")
         print(f"  clause {clause} still fails on the recorded witness; signature: {json.dumps(sig, sort_keys=True)}")
         return 1
